@@ -503,6 +503,9 @@ func report(e *Engine, prop, tier string, seed int, verif string, results []*Fun
 			trusted = append(trusted, "trusted contract (assumed, body not examined): "+fc.Key)
 		}
 		if fc.Used {
+			for _, c := range fc.InvAssumed {
+				trusted = append(trusted, "object invariant assumed at entry of "+fc.Key+" (established by the constructor, preserved by the type's methods, representation writers restricted structurally): "+c.Text)
+			}
 			for _, c := range fc.TrustedEnsures {
 				trusted = append(trusted, "assumed postcondition of "+fc.Key+" (not checked against the body): "+c.Text)
 			}
